@@ -251,6 +251,7 @@ type segReq struct {
 }
 
 type driver struct {
+	nEdge    int // chunked representation sweeps so far (every sixth asks for its last segment at the live edge)
 	w        *tr.W
 	sv       *server
 	rng      *rand.Rand
@@ -581,6 +582,14 @@ func (d *driver) runScenario(a *assetInfo, md drmMode, dl delivery, base int64, 
 			}
 		} else {
 			reqs = d.numberSegReqs(rep, base/int64(rep.DurMS), count)
+			d.nEdge++
+			if dl.Name == "chunked" && len(reqs) > 0 && reqs[len(reqs)-1].N >= 0 && d.nEdge%6 == 0 {
+				// (one chunked representation sweep in six: every such request costs up to 0.4 segment durations of real time, twice)
+				// the last segment is asked for while it is still in progress (60 % into it: after the advertised availability
+				// of its first chunk for every ato_ used here), so that the later chunks are delivered from the waiting path
+				last := &reqs[len(reqs)-1]
+				last.Now = int64(last.N)*int64(rep.DurMS) + int64(rep.DurMS)*6/10
+			}
 		}
 		for _, rq := range reqs {
 			encURL := withNow(joinURL(dl.Opts, md.URL, a.Path, rq.Path), rq.Now)
